@@ -23,7 +23,9 @@ FUNCTIONS = [
 ]
 BOUNDS = {"data": "none: all positions 0..1024-len, all block contents, all labels / booleans / 0..255 / 0..65535 / "
                   "hh:mm with h,m in 0..255, decimal string forms of numbers",
-          "temperature values": "raw-word round trip and decimal inputs are decided in IEEE-754 doubles (shared with C14)"}
+          "temperature values": "raw-word round trip and decimal inputs are decided in IEEE-754 doubles (shared with C14)",
+          "thorough": "additionally, for every pair of items of one table whose bytes overlap (grouped by the two signatures "
+                      "and their relative position): writing one leaves the other's decoded raw value unchanged"}
 ASSUMPTIONS = [
     "reference device model: a set-value (pos,len,v) stores v big-endian at block[pos:pos+len]",
     "independent field-width rule: bit-positioned enum = ceil(log2(max(MaxItems,2))) bits, bool = 1 bit, "
@@ -245,6 +247,80 @@ def cross_table(tag, mods):
     return scenario
 
 
+_PAIRS = None
+
+
+def neighbour_pairs():
+    """{(sigA, sigB, posB - posA): (module, tagA, tagB)} for every two items of one table whose bytes overlap"""
+    global _PAIRS
+    if _PAIRS is not None:
+        return _PAIRS
+    sigs, reps = signatures()
+    per_mod = {}
+    for sig, members in sigs.items():
+        for (mod, tag, pos) in members:
+            per_mod.setdefault(mod, []).append((pos, sig[4], tag, sig))
+    out = {}
+    for mod, items in per_mod.items():
+        items.sort(key=lambda t: (t[0], t[2]))
+        for i, (pa, la, ta, sa) in enumerate(items):
+            for (pb, lb, tb, sb) in items[i + 1:]:
+                if pb >= pa + la:
+                    break
+                for (x, y, d, tx, ty) in ((sa, sb, pb - pa, ta, tb), (sb, sa, pa - pb, tb, ta)):
+                    if x[0] == "GeckoTempStructAccessor" or y[0] == "GeckoTempStructAccessor":
+                        continue
+                    if x[3] and len(x[3]) > (x[7] or 255) + 1:
+                        continue          # (labels beyond the field: the listed PurgeDelayTimer finding)
+                    out.setdefault((x, y, d), (mod, tx, ty))
+    _PAIRS = out
+    return out
+
+
+def neighbour(key):
+    """writing item A leaves the decoded value of every other item B that shares bytes with it unchanged"""
+    def scenario(sx):
+        from geckolib.driver import GeckoStructure
+        sigs, reps = signatures()
+        sa, sb, d = key
+        a0, b0 = reps[sa], reps[sb]
+        blk = sx.block("block", 1024)
+        lo = max(0, -d)
+        hi = 1024 - max(a0.length, d + b0.length)
+        pos = sx.int_("pos", lo, hi)
+        writes = []
+        st = GeckoStructure(lambda p, l, v: writes.append((p, l, v)))
+        st.set_status_block(blk)
+        a, b = copy.copy(a0), copy.copy(b0)
+        for x, p_ in ((a, pos), (b, pos + d)):
+            x.pos = p_
+            x._observers = []
+            x.struct = st
+        a.set_read_write("ALL")
+        before = b._get_raw_value(blk)
+        v, _ = _values(sx, a0)
+        a._set_value(v)
+        p1, l1, n1 = writes[0]
+        after = b._get_raw_value(apply_write(blk, p1, l1, n1))
+        # (an item may legitimately alias the very same bits under another name: then B follows A by definition)
+        sx.observe("raw", (before, after))
+        fa = field_mask(a0)
+        fb = field_mask(b0)
+        # bit ranges inside the block: A occupies bits of bytes [pos, pos+la), B of [pos+d, pos+d+lb)
+        shift_a = 8 * (max(a0.length, d + b0.length) - a0.length)
+        shift_b = 8 * (max(a0.length, d + b0.length) - (d + b0.length)) if d >= 0 else 8 * (max(a0.length - d, b0.length) - b0.length)
+        if d >= 0:
+            bits_a, bits_b = fa << shift_a, fb << shift_b
+        else:
+            width = max(a0.length - d, b0.length)
+            bits_a = fa << (8 * (width - (a0.length - d)))
+            bits_b = fb << (8 * (width - b0.length))
+        if bits_a & bits_b:
+            return            # overlapping fields: not "another item's own bits"
+        sx.check(before == after, "rt.neighbour-item-unchanged", lambda: f"{before} -> {after}")
+    return scenario
+
+
 def positions(modname):
     """Every item of one module lies inside the status block (so the proof at a symbolic
     in-range position applies to it), and belongs to a proved signature."""
@@ -292,6 +368,9 @@ def units(tier):
         if len(variants) >= 2:
             mods2 = [m for _, m in sorted(variants.items(), key=lambda kv: kv[1])][:2]
             yield Unit(f"cross-table.{tag}", cross_table(tag, mods2), validate=False)
+    if tier == "thorough":
+        for key, (mod, ta, tb) in sorted(neighbour_pairs().items(), key=lambda kv: kv[1]):
+            yield Unit(f"neighbour.{mod}.{ta}.{tb}", neighbour(key), max_paths=5000)
     mods = sorted({m for ms in sigs.values() for (m, _, _) in ms})
     for m in mods:
         yield Unit(f"pos.{m}", positions(m), validate=False)
